@@ -43,14 +43,10 @@ def parseBool : String → Option Bool
 
 def negExt {n} (g : Ext (Zn n)) : Ext (Zn n) := ⟨0 - g.x, g.y, g.z, 0 - g.t⟩
 
-/-- `Suyama11::new`: (a, b, gx, gy) for n coprime to 3 -/
-def suyamaConsts (n : Nat) : Option (Zn n × Zn n × Zn n × Zn n) :=
+/-- `Suyama11::new`: `one_third` as the code selects it, then the translated constants (a, b, gx, gy) -/
+def suyamaNew (n : Nat) : Option (Zn n × Zn n × Zn n × Zn n) :=
   let t? : Option Nat := if n % 3 = 1 then some (n - n / 3) else if n % 3 = 2 then some (n / 3 + 1) else none
-  t?.map fun t =>
-    let t : Zn n := ⟨t % n⟩
-    let a := (0 - ((361 : Nat) : Zn n)) * t
-    let b := ((10582 : Nat) : Zn n) * (t * (t * t))
-    (a, b, ((12 : Nat) : Zn n) - t, ((24 : Nat) : Zn n))
+  t?.map fun t => suyamaConsts (⟨t % n⟩ : Zn n)
 
 def handleChain : Handler
   | ["chain64", k] => do
@@ -85,7 +81,7 @@ def handleChain : Handler
     let n ← parseNat n
     let r := fun s => (parseNat s).map (Zn.mk' n)
     let p : Pt (Zn n) := ⟨← r x, ← r y, ← r z⟩
-    match suyamaConsts n with
+    match suyamaNew n with
     | none => some "err 3"
     | some (a, b, gx, gy) =>
       some (" ; ".intercalate [s!"{a.v} {b.v} {gx.v} {gy.v}", showPt (suyamaAddG a b gx gy p),
